@@ -204,12 +204,33 @@ func genMsg(r *Rng, c *SrvConf, h *host, xid uint32) (MsgSpec, string) {
 	case "forged-cid":
 		m.Type = Pick(r, uint8(1), 3)
 		victim := c.SelfMAC
+		var vip net.IP
 		if len(c.Clients) > 0 && r.Bool() {
-			victim = c.Clients[r.Intn(len(c.Clients))].MAC
+			cl := c.Clients[r.Intn(len(c.Clients))]
+			victim, vip = cl.MAC, cl.IP
 		}
-		m.Cid = append([]byte{0, 3, 0, 0}, victim...)
+		// identities somebody might derive from another host's hardware address: the server's internal
+		// namespace, RFC 2132 "type 1" (01 + address), the bare address, other hardware types
+		switch r.Intn(6) {
+		case 0, 1:
+			m.Cid = append([]byte{0, 3, 0, 0}, victim...)
+		case 2, 3:
+			m.Cid = append([]byte{1}, victim...)
+		case 4:
+			m.Cid = append([]byte(nil), victim...)
+		default:
+			m.Cid = append([]byte{Pick(r, uint8(0), 6, 0xff)}, victim...)
+		}
 		if m.Type == 3 {
 			m.ReqIP, m.SrvID = own, c.SelfIP
+			if vip != nil && r.Bool() {
+				m.ReqIP = vip
+			}
+			if r.Chance(30) { // INIT-REBOOT shape
+				m.SrvID = nil
+			}
+		} else if vip != nil && r.Bool() {
+			m.ReqIP = vip
 		}
 	case "short-mac":
 		m.Type, m.MAC = 1, net.HardwareAddr(r.Bytes(Pick(r, 0, 1, 2, 3, 16)))
